@@ -558,6 +558,21 @@ def Store.poll (st : Store) (g : Nat) : Bool × Store :=
 def Store.remove (st : Store) (g : Nat) : Store :=
   { data := setAt st.data g none, notify := setAt st.notify g none }
 
+/-- `ch := wg.NotifyResult(group)` without receiving: a missing channel is created (empty) -/
+def Store.watch (st : Store) (g : Nat) : Store :=
+  { st with notify := if (st.notify g).isSome then st.notify else setAt st.notify g (some false) }
+
+/-- A channel a client KEEPS for a group (the reader of `RunJobs` is parked on the channel object it fetched
+before it went to sleep; it fetches the group's channel again only after a wake-up).  It is either still
+the channel in the map (`attached`: what is sent to the group's channel arrives here) or one that
+`RemoveGroup` of THAT group has dropped from the map since (`detached`: it keeps the token it had, nobody
+can send on it any more — a later store creates a new channel for the group). -/
+inductive Held
+  | none
+  | attached
+  | detached (token : Bool)
+deriving DecidableEq, Repr, Inhabited
+
 /-- `Queue.Pop`: error on the empty queue (which stays as it is), otherwise the head -/
 def queuePop (q : List Nat) : Option Nat × List Nat :=
   match q with
@@ -571,6 +586,8 @@ inductive DOp
   | finish (g v : Nat)          -- the harness lets the RUNNING job function `v` (of group `g`) return
   | remove (g : Nat) | results (g : Nat) | poll (g : Nat)
   | qAdd (vs : List Nat) | qPop | qLen      -- a `Queue` value of its own
+  | watch (g : Nat)             -- `ch[g] = NotifyResult(g)`: the client fetches the group's channel and KEEPS it
+  | pollHeld (g : Nat)          -- `select { case <-ch[g]: true; default: false }` on the channel kept for `g`
 deriving DecidableEq, Repr, Inhabited
 
 inductive DOut
@@ -588,6 +605,22 @@ structure DState where
   store : Store := {}
   outstanding : Nat := 0        -- accepted and not finished (running or queued behind busy workers)
   queue : List Nat := []
+  held : Nat → Held := fun _ => .none   -- the channels the client keeps, per group
+
+/-- `RemoveGroup(g)` seen from the channel kept for `g`: it leaves the map with the token it holds.  ONLY
+the channel kept for `g` is touched (`dstep`: `setAt d.held g …`); the channel of every other group —
+however many groups there are, whatever state they are in — stays the group's channel -/
+def Held.cutOff (h : Held) (token : Bool) : Held :=
+  match h with
+  | .attached => .detached token
+  | h => h
+
+/-- a non-blocking receive on the channel kept for `g`: outcome, store, kept channels -/
+def pollHeldStep (st : Store) (held : Nat → Held) (g : Nat) : Bool × Store × (Nat → Held) :=
+  match held g with
+  | .none => (false, st, held)
+  | .attached => ((st.notify g).getD false, { st with notify := setAt st.notify g ((st.notify g).map fun _ => false) }, held)
+  | .detached b => (b, st, setAt held g (.detached false))
 
 /-- one direct call on a group with `workers` workers (jobs start in FIFO order as workers are free, so
 `min workers outstanding` job functions are running) -/
@@ -599,16 +632,29 @@ def dstep (workers : Nat) (d : DState) : DOp → DOut × DState
   | .finish g v =>
     (.finished (min workers (d.outstanding - 1)),
      { d with store := d.store.store g v, outstanding := d.outstanding - 1 })
-  | .remove g => (.unit, { d with store := d.store.remove g })
+  | .remove g =>
+    (.unit, { d with store := d.store.remove g, held := setAt d.held g ((d.held g).cutOff ((d.store.notify g).getD false)) })
   | .results g => (.vals (d.store.results g).1, { d with store := (d.store.results g).2 })
   | .poll g => (.token (d.store.poll g).1, { d with store := (d.store.poll g).2 })
   | .qAdd vs => (.unit, { d with queue := d.queue ++ vs })
   | .qPop => (.popped (queuePop d.queue).1, { d with queue := (queuePop d.queue).2 })
   | .qLen => (.len d.queue.length, d)
+  | .watch g => (.unit, { d with store := d.store.watch g, held := setAt d.held g .attached })
+  | .pollHeld g =>
+    (.token (pollHeldStep d.store d.held g).1,
+     { d with store := (pollHeldStep d.store d.held g).2.1, held := (pollHeldStep d.store d.held g).2.2 })
 
 def drun (workers : Nat) : DState → List DOp → List DOut
   | _, [] => []
   | d, op :: ops => (dstep workers d op).1 :: drun workers (dstep workers d op).2 ops
+
+/-- the state after the calls -/
+def dend (workers : Nat) : DState → List DOp → DState
+  | d, [] => d
+  | d, op :: ops => dend workers (dstep workers d op).2 ops
+
+/-- the client keeps the live channel of group `g` and a token is on it: a reader parked there wakes up -/
+def Woken (d : DState) (g : Nat) : Prop := d.held g = .attached ∧ d.store.notify g = some true
 
 /-! ### the pre-fix witness -/
 
